@@ -188,6 +188,9 @@ Definition lit_pure (t : vtype) (v : Z) : pure := PBv (vt_sg t) (vt_w t) v.
 (* the term a value denotes when read (inlined classes are re-rendered: same tree) *)
 Definition rd (p : pval) : pure := pv_term p.
 
+(* isinstance(src, LetVar) and src.get_val() >= 0 *)
+Definition nonneg_const (p : pval) : bool := match pv_kind p with KLit v _ => (0 <=? v)%Z | KLitFloat _ => true | _ => false end.
+
 Definition init_a_cast (target : vtype) (p : pval) : M pval :=
   if vt_float target || vt_float (pv_ty p) then fail "Floats or doubles should not be casted" else
   do eq <- ty_eq target (pv_ty p);
@@ -201,7 +204,7 @@ Definition init_a_cast (target : vtype) (p : pval) : M pval :=
        faithful term is kept, so that the switch "matters" exactly when the defect can show *)
     ret (mkpv (if fx_cast_fill fx && (vt_w (pv_ty p) <? vt_w target)%N
                then PCast (vt_w target) (if vt_sg (pv_ty p) then PMsb (rd p) else PBool false) (rd p)
-               else cast_il_exec target (pv_ty p) (rd p)) target KExec (pv_tmps p)).
+               else cast_il_exec target (pv_ty p) (nonneg_const p) (rd p)) target KExec (pv_tmps p)).
 
 Definition promotion_cast (p : pval) : M pval :=
   do _ <- need_numeric (pv_ty p);
